@@ -420,6 +420,9 @@ def gamma_recurrence(ctx, rule="R03.7"):
 
 
 def run(ctx):
+    from .C14 import no_cached_derived
+
+    no_cached_derived(ctx, rule="R03.8")  # a cached derived quantity (integral scale, ...) that outlives a parameter change breaks the mutual consistency
     gamma_recurrence(ctx)
     derivation_closure(ctx)
     variant_siblings(ctx)
